@@ -8,8 +8,8 @@ from . import core
 from . import c08_sched as S
 
 PROP = "C10"
-LEAN_TARGETS = ["Asynkit.Props.C10", "Asynkit.Lemmas.GenEqSched", "Asynkit.Lemmas.GenEqPosPQ", "Asynkit.Lemmas.GenEqPQ"]
-PROPS_FILES = ["Asynkit/Props/C10.lean", "Asynkit/Lemmas/GenEqSched.lean", "Asynkit/Lemmas/GenEqPosPQ.lean", "Asynkit/Lemmas/GenEqPQ.lean"]
+LEAN_TARGETS = ["Asynkit.Props.C10", "Asynkit.Lemmas.GenEqSched", "Asynkit.Lemmas.GenEqPosPQ", "Asynkit.Lemmas.GenEqPQ", "Asynkit.Lemmas.GenEqLoopStd"]
+PROPS_FILES = ["Asynkit/Props/C10.lean", "Asynkit/Lemmas/GenEqSched.lean", "Asynkit/Lemmas/GenEqPosPQ.lean", "Asynkit/Lemmas/GenEqPQ.lean", "Asynkit/Lemmas/GenEqLoopStd.lean"]
 DRIVERS = ["Sched"]
 TRUSTED = [
     'Lean 4.33 kernel; axioms ⊆ {propext, Classical.choice, Quot.sound} (audited per theorem each run)',
